@@ -1161,6 +1161,9 @@ def run(ctx):
     ctx.correspond("compare.triples", ops, impl, oracle=oracle, neighbours=neighbours)
     ctx.check_cases("wfCheck (Heb.cal true) evaluated on drv_calendar (hypothesis of hebrewScriptural_cmp_iff_days)",
                     ["cal.wf 5"], _wf_case)
+    import c12_routes
+    ctx.check_cases("equality.routes (one value built by many public routes: ==, hash, order, normalised)",
+                    c12_routes.gen_cases(ctx.rng, ctx.scale(2_500, 120_000)), c12_routes.case_fn)
     tag = f"{getattr(ctx, 'seed', 0)}:{ctx.tier}"
     ctx.check_cases("immutability (support, harness only)", [f"static:{tag}", f"rebind:{tag}", f"dynamic:{tag}"], _imm_case(ctx))
 
@@ -1177,6 +1180,10 @@ def _wf_case(op):
 def replay_op(op, failure):
     if op.startswith("cal.wf"):
         return _wf_case(op)
+    if op.startswith("('instant'") or op.startswith("('duration'") or op.startswith("('ldt'"):
+        import ast
+        import c12_routes
+        return c12_routes.case_fn(ast.literal_eval(op))
     if op.split(":")[0] in _IMM:
         tier = op.split(":")[2] if op.count(":") >= 2 else "quick"
 
